@@ -2,7 +2,16 @@ package verifsim
 
 import (
 	"math/rand"
+	"sort"
 )
+
+// SortStrings is inserted by simgen after the watcher collected map keys into a slice
+// (see simgen); outside a simulation the slice is left as it is.
+func SortStrings(s []string) {
+	if active != nil {
+		sort.Strings(s)
+	}
+}
 
 // The redirected math/rand calls (bundler.generateUniqueKeyPrefix and the watcher's
 // scan-order shuffle).
